@@ -1,4 +1,5 @@
 import JunoModel.C02.Proofs
+import JunoModel.Generated.Arith
 /-!
 C02 — "A block is stored only if hash, linkage, tx hashes and state root all verify."
 Property theorems (statements only; the proofs are in `Proofs.lean`).
@@ -26,6 +27,15 @@ theorem concatCounts_injective (t e s t' e' s' : UInt64) (d d' : Nat)
 /-- `dataAvailabilityMode(fee, nonce)` is injective over `uint32²`. -/
 theorem daMode_injective (f n f' n' : UInt32) (h : daMode f n = daMode f' n') : f = f' ∧ n = n' :=
   daFelt_inj h
+
+/-- The model's `daMode` IS the function /verif/gen regenerates from `core/transaction.go` on every
+check run (`JunoModel.Tie.DaMode` proves the packing law over that regenerated definition). -/
+theorem daMode_is_regenerated (f n : UInt32) : (Juno.Generated.daMode f n).toNat = daMode f n := by
+  simp only [Juno.Generated.daMode, Id.run, pure, Juno.Generated.Go.shl64, daMode]
+  have hf := f.toNat_lt; have hn := n.toNat_lt
+  simp [UInt64.toNat_add, UInt64.toNat_shiftLeft]
+  rw [Nat.shiftLeft_eq]
+  omega
 
 /-- `tipAndResourcesHash` commits the tip, both mandatory bounds and the presence and value of the
 L1-data-gas bound — prices only in their low 128 bits (`ResView`). -/
@@ -239,6 +249,65 @@ theorem tx_tamper_rejected_partial (net : Net) (B B' : Bundle) (hv : Verified ne
   have h2 := verified_tx_hash net B' hv' hu' v' hp' hge' t' ht' w' hw'
   rw [hsame, h2] at h1
   exact (encodeView_inj net.chainId w w' (txView_valid t w hw) (txView_valid t' w' hw') (by simpa using h1.symm))
+
+/-- `VerifyTransactions` looks at EVERY position: if it passes (protocol ≥ 0.11.0), the transaction
+at any index `i` recomputes to its declared hash. (A verification that skips some positions — e.g.
+the remainder of a chunked parallel loop — is not this function.) -/
+theorem verifyTransactions_every_position (chain : Term) (txs : List Tx) (version : Bytes) (v : Ver)
+    (hp : parseVersion version = some v) (hge : v.lt v0_11_0 = false)
+    (h : verifyTransactions chain txs version = true) (i : Nat) (t : Tx) (hi : txs[i]? = some t) :
+    ∃ x, txHash chain t = some x ∧ t.hash = some x :=
+  verifyTransactions_mem chain txs version v hp hge h t (List.mem_of_getElem? hi)
+
+/-- `tamper_rejected` for transactions, quantified over the POSITION: take an accepted block `B`
+and any block `B'` whose transaction at position `i` — any `i`, first, last, in the tail after the
+last full chunk of a worker pool — keeps the declared hash of `B`'s transaction at `i` but differs
+from it in a committed field; then `B'` is rejected by every node.
+(PARTIAL in the same sense as `tx_tamper_rejected_partial`: only for kinds whose hash juno recomputes.) -/
+theorem tx_tamper_at_any_position_rejected_partial {σ : Type} (sem : StateSem σ) (net : Net) (c c' d : Chain σ)
+    (B B' : Bundle) (i : Nat) (t t' : Tx) (w w' : TxView)
+    (hacc : accept sem net c B = .ok c')
+    (hu : inUnverifiable net B.block.header.number = false)
+    (hu' : inUnverifiable net B'.block.header.number = false)
+    (v v' : Ver) (hp : parseVersion B.block.header.version = some v) (hp' : parseVersion B'.block.header.version = some v')
+    (hge : v.lt v0_11_0 = false) (hge' : v'.lt v0_11_0 = false)
+    (hi : B.block.txs[i]? = some t) (hi' : B'.block.txs[i]? = some t')
+    (hw : txView t = some w) (hw' : txView t' = some w') (hsame : t'.hash = t.hash) (hdiff : w' ≠ w) :
+    ∃ e, accept sem net d B' = .error e := by
+  cases hacc' : accept sem net d B' with
+  | error e => exact ⟨e, rfl⟩
+  | ok d' =>
+    have hv := (accept_ok sem net c c' B hacc).1
+    have hv' := (accept_ok sem net d d' B' hacc').1
+    exact absurd (tx_tamper_rejected_partial net B B' hv hv' hu hu' v v' hp hp' hge hge' t t'
+      (List.mem_of_getElem? hi) (List.mem_of_getElem? hi') w w' hw hw' hsame.symm).symm hdiff
+
+/-- The block views are whole lists, so equal block hashes pin down every position of the
+transaction, receipt and event lists (what a commitment built by a worker pool must still cover). -/
+theorem blockView0134_every_position (b b' : Block) (sd sd' : StateDiff) (h : blockView0134 b sd = blockView0134 b' sd') (i : Nat) :
+    (b.txs[i]?).map sigView = (b'.txs[i]?).map sigView ∧
+    (b.receipts[i]?).map receiptView = (b'.receipts[i]?).map receiptView ∧
+    (eventsFlat b.receipts)[i]? = (eventsFlat b'.receipts)[i]? := by
+  have h1 : b.txs.map sigView = b'.txs.map sigView := congrArg BlockView0134.txs h
+  have h2 : b.receipts.map receiptView = b'.receipts.map receiptView := congrArg BlockView0134.receipts h
+  have h3 : eventsFlat b.receipts = eventsFlat b'.receipts := congrArg BlockView0134.events h
+  refine ⟨?_, ?_, by rw [h3]⟩
+  · have := congrArg (fun l => l[i]?) h1; simpa using this
+  · have := congrArg (fun l => l[i]?) h2; simpa using this
+
+/-- `VerifyClassHashes` looks at every class: a stored block has no Sierra class, at any position of
+the class list, whose definition does not hash to its key. -/
+theorem class_tamper_at_any_position_rejected {σ : Type} (sem : StateSem σ) (net : Net) (c : Chain σ) (B : Bundle)
+    (i : Nat) (k : Nat) (cd : ClassDef) (hi : B.classes[i]? = some (k, cd)) (hs : cd.cairo0 = false)
+    (hbad : cd.computedHash ≠ k) : ∃ e, accept sem net c B = .error e := by
+  cases hacc : accept sem net c B with
+  | error e => exact ⟨e, rfl⟩
+  | ok c' =>
+    have hv := (accept_ok sem net c c' B hacc).1.classes
+    simp only [verifyClassHashes, List.all_eq_true] at hv
+    have := hv (k, cd) (List.mem_of_getElem? hi)
+    simp [hs] at this
+    exact absurd this hbad
 
 /-- `reject_no_effect`: a rejected block leaves the node's chain (head, state, stored blocks) exactly
 as it was. In juno this is because `Store` does everything inside one write batch. -/
